@@ -577,3 +577,51 @@ Qed.
 (* the former witness: the listener times out, then the ack arrives — now ignored *)
 Definition late_ack_history : list event :=
   [ServerHotRestart 5; DeliverRestart 0 true; ManagerTick; ListenerTimeout; DeliverAck 0].
+
+(* ------------------------------------------------------------------ the old sessions survive a completed hand-over *)
+(* Outside hotRestartState (in particular after the manager's checker declared the hand-over done and
+   RETURNED: ManagerTick's completion case clears m_chk) no step except the first event of a NEW hot
+   restart removes or closes a parked pool: the manager's checker has no enabled step (its tick and its
+   time-out need a running checker), a parked session can only die by itself (the old server lets go). *)
+Theorem old_sessions_survive : forall hs evs ev i c, Forall (fun h => h = true) hs ->
+  let s := run evs (init_hs hs) in
+  m_state (mgr s) <> st_hr -> (forall j ok, ev <> DeliverRestart j ok) ->
+  nth_error (m_reserve (mgr s)) i = Some (Some c) ->
+  m_chk (mgr s) = false /\
+  exists c', nth_error (m_reserve (mgr (step s ev))) i = Some (Some c') /\ (c' = c \/ c' = kill_self c).
+Proof.
+  intros hs evs ev i c Hhs s Hst Hne Hr.
+  destruct (reach_inv hs evs Hhs) as [_ _ Hm _ _ _ _]. fold s in Hm.
+  assert (Hc : m_chk (mgr s) = false).
+  { destruct (m_chk (mgr s)) eqn:E; [|reflexivity]. exfalso. apply Hst. apply Hm. reflexivity. }
+  split; [exact Hc|].
+  unfold step. destruct (enabled s ev) eqn:He; [|exists c; auto].
+  destruct ev; cbn [apply_event]; cbn [enabled] in He; try (exists c; cbn; auto; fail).
+  - unfold hot_restart. destruct (l_state (lis s) =? st_hr); cbn; [exists c; auto|].
+    destruct (hr_loop e (l_sess (lis s)) (to_client s)) as [[[ss ch] k] early]. destruct early; cbn; exists c; auto.
+  - exfalso. apply (Hne i0 ok). reflexivity.
+  - destruct (nth_error (to_client s) i0); cbn; exists c; auto.
+  - rewrite Hc in He. discriminate.
+  - rewrite Hc in He. discriminate.
+  - unfold pop_head. destruct (nth_error (to_server s) i0) as [[|e q]|]; cbn; exists c; auto.
+  - destruct (nth_error (to_server s) i0); cbn; exists c; auto.
+  - destruct (l_state (lis s) =? st_hr); cbn; [|exists c; auto]. destruct (l_ack (lis s) =? 0); cbn; exists c; auto.
+  - destruct (nth_error (m_pools (mgr s)) i0); cbn; exists c; auto.
+  - (* ParkedSessionDies *)
+    destruct (nth_error (m_reserve (mgr s)) i0) as [[c0|]|] eqn:Hc0; try (exists c; auto; fail). cbn.
+    destruct (Nat.eq_dec i0 i) as [->|Hn].
+    + rewrite Hr in Hc0. inversion Hc0; subst. exists (kill_self c0). split; [eapply nth_error_upd_same; eauto | auto].
+    + exists c. rewrite nth_error_upd_other by exact Hn. auto.
+  - destruct (nth_error (l_sess (lis s)) i0); cbn; exists c; auto.
+Qed.
+
+(* the completion case of the manager's tick ends the checker (the `return` of the "all pools moved"
+   branch) and keeps every parked pool *)
+Theorem manager_done_returns : forall s, m_chk (mgr s) = true ->
+  count_some (m_reserve (mgr s)) = length (m_pools (mgr s)) ->
+  m_chk (mgr (step s ManagerTick)) = false /\ m_state (mgr (step s ManagerTick)) = st_default /\
+  m_reserve (mgr (step s ManagerTick)) = m_reserve (mgr s) /\ m_pools (mgr (step s ManagerTick)) = m_pools (mgr s).
+Proof.
+  intros s Hc Hn. unfold step. cbn [enabled]. rewrite Hc. cbn [apply_event].
+  rewrite Hn, Nat.eqb_refl. cbn. auto.
+Qed.
